@@ -73,6 +73,35 @@ ASAN_FLAGS = "-D%s -fno-builtin -g -O1 -fsanitize=address,undefined -fno-sanitiz
 PLAIN_FLAGS = "-D%s -fno-builtin -g -O1" % GUARD
 
 
+_HELD = []
+
+
+def _inuse_path(bdir):
+    return os.path.join(WORK, "inuse-" + os.path.basename(bdir) + ".lock")
+
+
+def _hold(bdir):
+    """shared lock for the life of this process: the build directory is in use and must not be garbage-collected"""
+    f = open(_inuse_path(bdir), "a")
+    fcntl.flock(f, fcntl.LOCK_SH)
+    _HELD.append(f)
+
+
+def _unused(bdir):
+    p = _inuse_path(bdir)
+    with open(p, "a") as f:
+        try:
+            fcntl.flock(f, fcntl.LOCK_EX | fcntl.LOCK_NB)
+        except OSError:
+            return False
+        fcntl.flock(f, fcntl.LOCK_UN)
+    try:
+        os.unlink(p)
+    except OSError:
+        pass
+    return True
+
+
 def libbuild(kind="asan"):
     """Configure+build static libs and tools from /repo's current tree. Returns build dir.
     kind: 'asan' (default; sanitizer oracle) or 'plain' (for valgrind-free fast sweeps)."""
@@ -80,12 +109,14 @@ def libbuild(kind="asan"):
     hsh = source_hash() + "-" + hashlib.sha256(flags.encode()).hexdigest()[:6]
     bdir = os.path.join(WORK, "build-%s-%s" % (kind, hsh))
     with lock("libbuild-" + kind):
+        _hold(bdir)
         if os.path.exists(os.path.join(bdir, ".ok")):
             return bdir
-        # drop old builds of other hashes (disk is limited): keep the two most recent besides this one
+        # drop old builds of other hashes (disk is limited): keep the two most recent besides this one, and any a running check uses
         olds = sorted((o for o in glob.glob(os.path.join(WORK, "build-%s-*" % kind)) if o != bdir), key=os.path.getmtime)
         for old in olds[:-2]:
-            shutil.rmtree(old, ignore_errors=True)
+            if _unused(old):
+                shutil.rmtree(old, ignore_errors=True)
         shutil.rmtree(bdir, ignore_errors=True)
         t0 = time.time()
         cfg = ["cmake", "-G", "Ninja", "-S", REPO, "-B", bdir, "-DCMAKE_BUILD_TYPE=RelWithDebInfo",
